@@ -33,6 +33,7 @@ def run(ctx):
     ix = ctx.index
     ctx.guard(rule_a, ctx, ix)
     ctx.guard(rule_b, ctx, ix)
+    ctx.guard(rule_c, ctx, ix)
 
 
 def family(ix):
@@ -161,6 +162,38 @@ def rule_a(ctx, ix):
                    detail='%s returns `%s`, which does not depend on its %s parameter, on a path where a view was given: the '
                           'caller receives the full-size (or a differently shaped) result instead of the requested view'
                           % (f.construct, norm(r), vp), where=where(f, r))
+
+
+def rule_c(ctx, ix):
+    """Changing the indices of an IndexedData must rebuild everything derived from them (on every path)."""
+    R = 'C04.c'
+    ctx.describe(R, 'IndexedData.indices: every structure derived from the indices is rebuilt whenever they are assigned', floor=2)
+    idx = ix.cls('glue.core.data_derived.IndexedData')
+    m = idx.resolve('indices')
+    if m is None or m.fset is None:
+        raise AnalysisError('IndexedData.indices setter vanished')
+    f = m.fset
+    s = f.self_name
+    # which derived structures are used by the forwarding methods
+    used = {}
+    for name, mem in idx.members.items():
+        g = mem.func
+        if g is None or g is f:
+            continue
+        for n in ast.walk(g.node):
+            if isinstance(n, ast.Attribute) and isinstance(n.value, ast.Name) and n.value.id == g.self_name \
+                    and n.attr in ('_indices_subset_state', '_original_pixel_cids'):
+                used.setdefault(n.attr, set()).add(name)
+    if len(used) < 2:
+        raise AnalysisError('IndexedData: structures derived from the indices are no longer used as expected (%s)' % sorted(used))
+    for fld, users in sorted(used.items()):
+        common.must_reach(ctx, R, f,
+                          lambda e: isinstance(e, ast.Assign) and any(unparse(t) == '%s._indices' % s for t in e.targets),
+                          lambda e, fld=fld: isinstance(e, ast.Assign) and any(unparse(t) == '%s.%s' % (s, fld) for t in e.targets),
+                          'after the indices are assigned, %s (used by %s) is rebuilt on every path' % (fld, sorted(users)),
+                          '%(func)s assigns the new indices with `%(stmt)s` but can return without rebuilding ' + fld +
+                          ' (used by ' + ', '.join(sorted(users)) + '): after the indices change, those methods still describe the '
+                          'old slice of the parent')
 
 
 ID_LIKE = {'cid', 'cids', 'weights', 'target_cid'}
